@@ -20,6 +20,10 @@ import argparse, hashlib, importlib, json, os, subprocess, sys, time, traceback
 from . import recorder as R
 
 ROOT = os.path.dirname(os.path.dirname(os.path.abspath(__file__)))
+# VERIF_REPO: private override used only for sensitivity experiments (mutated scratch copies of the repository);
+# the registered commands never set it, so they always test /repo's working tree.
+REPO = os.path.realpath(os.environ.get("VERIF_REPO") or "/repo")
+ALT = bool(os.environ.get("VERIF_REPO"))
 LEVEL = "exploration"
 
 
@@ -73,8 +77,8 @@ def _inside_tangelo(exc):
     # innermost frame that belongs to either tangelo or the harness decides
     for f in reversed(frames):
         fn = os.path.realpath(f.filename)
-        if fn.startswith("/repo/"):
-            return True, f"{type(exc).__name__}@{os.path.relpath(fn, '/repo')}:{f.name}"
+        if fn.startswith(REPO + os.sep):
+            return True, f"{type(exc).__name__}@{os.path.relpath(fn, REPO)}:{f.name}"
         if fn.startswith(ROOT + os.sep):
             return False, None
     return False, None
@@ -151,11 +155,11 @@ class Ctx:
                 self.known_hits[sig] = {"what": self.findings[sig].get("what", ""), "example": case, "message": fail.msg}
             return True
         fp = R.fingerprint({"s": name, "c": case})
-        rel = os.path.join("replay", f"{self.prop}-{self.part}-{fp}.json")
+        rel = os.path.join(".work/replay-alt" if ALT else "replay", f"{self.prop}-{self.part}-{fp}.json")
         doc = {"property": self.prop, "part": self.part, "search": name, "signature": sig, "message": fail.msg,
                "details": json.loads(R.canon(fail.details)), "seed": self.base_seed, "case": json.loads(R.canon(case))}
         if not self.replay:
-            os.makedirs(os.path.join(ROOT, "replay"), exist_ok=True)
+            os.makedirs(os.path.dirname(os.path.join(ROOT, rel)), exist_ok=True)
             with open(os.path.join(ROOT, rel), "w") as fh:
                 json.dump(doc, fh, indent=1, sort_keys=True)
         self.violations.append({"replay": rel if not self.replay else self.replay.get("path", rel), "signature": sig,
@@ -283,8 +287,8 @@ def load_check(prop):
 def assert_tree():
     import tangelo
     p = os.path.realpath(tangelo.__file__)
-    if not p.startswith("/repo/"):
-        raise HarnessError(f"tangelo imported from {p}, expected /repo")
+    if not p.startswith(REPO + os.sep):
+        raise HarnessError(f"tangelo imported from {p}, expected {REPO}")
 
 
 def run_worker(prop, tier, seed, shard, nshards, only, replay, budget_s):
@@ -461,9 +465,10 @@ def main(argv=None):
             "wall_s": round(wall, 2),
             "violations": len(violations),
         }
-        os.makedirs(os.path.join(ROOT, "evidence"), exist_ok=True)
+        evdir = os.path.join(ROOT, ".work", "evidence-alt") if (ALT or a.only) else os.path.join(ROOT, "evidence")
+        os.makedirs(evdir, exist_ok=True)
         if not harness_errors:
-            with open(os.path.join(ROOT, "evidence", f"{prop}.json"), "w") as fh:
+            with open(os.path.join(evdir, f"{prop}.json"), "w") as fh:
                 json.dump(ev, fh, indent=1, sort_keys=True)
 
     import shutil
